@@ -1187,8 +1187,11 @@ class Memoer(Tymee):
         oz = bz + mz + nz + vz + az
         if self.curt:  # minimum header smaller when in base2 curt
             oz = 3 * oz // 4
+        # rend takes the overhead of non-zeroth grams unscaled even when curt
+        noz = sum(self.Sizes[self.Pairs[self.code]])
         # min size is big enough for zeroth gram overhead plus 1 body byte
-        size = max(size, oz + 1)
+        # and for non-zeroth gram overhead plus 1 body byte
+        size = max(size, oz + 1, noz + 1)
         if size > self.MaxGramSize:
             hioing.MemoerError(f"Invalid {size=} exceeds "
                                f"MaxGramSize={self.MaxGramSize}")
@@ -1877,7 +1880,6 @@ class Memoer(Tymee):
             zvz = 3 * zvz // 4
             zaz = 3 * zaz // 4
             zoz = 3 * zoz // 4
-            noz = 3 * noz // 4  # non-zeroth overhead is also smaller in base2
             zcodeb = decodeB64(zcodeb)  # convert to base2 bytes
             ncodeb = decodeB64(ncodeb)  # convert to base2 bytes
             midb = decodeB64(midb)  # convert to base2 bytes
